@@ -123,11 +123,11 @@ PROPERTY_RULES: Dict[str, List[Scoped]] = {
     "C13": [
         _r("KIND-EXHAUSTIVE"), _r("KIND-AGREE"), _r("ONE-EVENT-NODE"), _r("ONE-ARROW"), _r("LOSS-MARKERS"),
         _r("STYLE-DEFINED"), _r("MEASURE-LOCKSTEP"), _r("IDENTITY-KEYS"), _r("SOLVER-STATELESS", S_RENDER),
-        _r("NO-PRUNED-TRAVERSAL", S_RENDER), _r("LOSS-CHAIN"),
+        _r("NO-PRUNED-TRAVERSAL", S_RENDER), _r("LOSS-CHAIN"), _r("SIGMA-DRAW"), _r("LAYOUT-SIDES"),
     ],
     "C14": [
         _r("SIGMA-INVARIANCE"), _r("SIGMA-CLOSURE"), _r("SOLVER-STATELESS", ("render.layout:", "utils.geometry:")),
-        _r("LOSS-CHAIN"),
+        _r("LOSS-CHAIN"), _r("LAYOUT-SIDES"),
     ],
     "C15": [
         _r("TEMPLATE-BRACES"), _r("TEMPLATE-TERMINATED"), _r("PICTURE-ENV"), _r("COLOR-INTERN"),
@@ -391,8 +391,10 @@ PROPERTY_INFO: Dict[str, Dict] = {
             "LOSS-MARKERS (oracle: evaluator signature), STYLE-DEFINED, MEASURE-LOCKSTEP",
             "every object node is visited (NO-PRUNED-TRAVERSAL); loss nodes compare by identity and link to the previous one (IDENTITY-KEYS, LOSS-CHAIN)",
             "a drawing does not inherit layers from an earlier one (SOLVER-STATELESS)",
+            "fork corners, leaf outlines, leaf and loss markers and path operators of the horizontal drawing are the transposed ones of the vertical drawing, as symbolic points (SIGMA-DRAW)",
+            "branch.left / branch.right are the lineages below the first / second child species (speciation) resp. the conserved / transferred child (transfer), over every configuration of the relational model (LAYOUT-SIDES)",
         ],
-        "not_decided": ["that each node is placed in the species it is mapped to (run-time filter)", "marker coordinates"],
+        "not_decided": ["that each node is placed in the species it is mapped to (run-time filter)", "absolute marker coordinates"],
     },
     "C14": {
         "explanation": "Static analysis (ast transformation): the transposition sigma is applied to the syntax "
@@ -401,7 +403,7 @@ PROPERTY_INFO: Dict[str, Dict] = {
         "decided": [
             "horizontal = transposed vertical (SIGMA-INVARIANCE + SIGMA-CLOSURE)",
             "computing twice gives the same result: no state kept (SOLVER-STATELESS)",
-            "every level of a multi-level loss references the node created just before (LOSS-CHAIN) - necessary for 'every anchor referenced exists'",
+            "every level of a multi-level loss references the node created just before, and the sides of a speciation branch are the lineages that live in the matching child species (LOSS-CHAIN, LAYOUT-SIDES) - necessary for 'every anchor referenced exists'",
         ],
         "not_decided": ["finiteness, non-overlap, containment, anchor existence in general"],
     },
